@@ -55,10 +55,11 @@ def run_cli(cwd, args, timeout=120, fsize=None):
     return p.returncode, p.stdout.decode(errors="replace"), p.stderr.decode(errors="replace")
 
 
-def run_build(cwd, timeout=120, fsize=None):
+def run_build(cwd, timeout=120, fsize=None, extra_env=None):
     """BuildSystem::generate_at_build_time() in a fresh process with the given current directory"""
+    env = dict(core.ENV, **extra_env) if extra_env else core.ENV
     p = subprocess.run([core.TGH, "buildpath"], cwd=cwd, stdout=subprocess.PIPE, stderr=subprocess.PIPE,
-                       timeout=timeout, env=core.ENV, preexec_fn=_limit(fsize))
+                       timeout=timeout, env=env, preexec_fn=_limit(fsize))
     return p.returncode, p.stdout.decode(errors="replace"), p.stderr.decode(errors="replace")
 
 
